@@ -82,7 +82,7 @@ class StubValidatorClass:
         return Inst()
 
 
-def run_scenario(prog, schema_state, instances, output="plain", explicit=False, base_uri=None, stdin_state=None):
+def run_scenario(prog, schema_state, instances, output="plain", explicit=False, base_uri=None, stdin_state=None, repeat_first=False):
     """-> dict(exit, opened, log, out, err)"""
     ev = Ev(prog, fuel=120000, real_errors=True)
     Obj.ev = ev
@@ -96,6 +96,8 @@ def run_scenario(prog, schema_state, instances, output="plain", explicit=False, 
         p = "i%d.json" % i
         spec[p] = st
         paths.append(p)
+    if repeat_first and paths:
+        paths.append(paths[0])          # the same file named twice on the command line
     fake_open, opened = _files(spec)
     ev.builtins["open"] = fake_open
     sysstub = _Sys(ev)
@@ -112,7 +114,7 @@ def run_scenario(prog, schema_state, instances, output="plain", explicit=False, 
     else:
         stdin = io.StringIO(json.dumps(value_of(stdin_state)))
     arguments = {"validator": given if explicit else None, "schema": "schema.json", "instances": paths if instances is not None else None,
-                 "error_format": "<{error.message}>" if output == "plain" else None, "output": output, "base_uri": base_uri}
+                 "error_format": "<{error.message}>\u2713\u00e9" if output == "plain" else None, "output": output, "base_uri": base_uri}
     run = prog.func("cli.run")
     # sys.exc_info(): track the exception being handled
     orig = ev.handler_matches
@@ -160,9 +162,17 @@ def cli_eval(prog):
         for sin in ({"errors": 0}, {"errors": 2}, NOTJSON):
             scenarios.append((good, None, "plain", False, None, sin))
             scenarios.append((good, None, "pretty", True, None, sin))
+        for output in ("plain", "pretty"):
+            scenarios.append((good, [{"errors": 1}, {"errors": 0}, "REPEAT"], output, False, None, None))
+            scenarios.append((good, [MISSING, "REPEAT"], output, False, None, None))
         n_run = 0
         for (sst, insts, output, explicit, base, sin) in scenarios:
-            res = run_scenario(prog, sst, insts, output, explicit, base, sin)
+            rep = bool(insts) and insts[-1] == "REPEAT"
+            if rep:
+                insts = insts[:-1]
+            res = run_scenario(prog, sst, insts, output, explicit, base, sin, repeat_first=rep)
+            if rep:
+                insts = insts + [insts[0]]
             n_run += 1
             label = "schema %s, instances %s, %s%s%s%s" % (
                 sst if isinstance(sst, str) else ("invalid" if sst.get("invalid") else "valid"),
@@ -207,6 +217,8 @@ def cli_eval(prog):
             err, so = res["err"], res["out"]
             if output == "plain":
                 got_err = err.count("<E")
+                if err.count("\u2713\u00e9") != n_err and got_err == n_err:
+                    out["reports"] = out["reports"] or "%s: the error format's own text (non-ASCII characters) does not come out as given" % label
                 if got_err != n_err:
                     out["reports"] = out["reports"] or "%s: %d errors written through the error format, expected %d" % (label, got_err, n_err)
                 if so != "":
